@@ -33,7 +33,8 @@ META = {
             "the generated layout constants (gen_diskcrash) and by the end-to-end correspondence (slot ids and lengths of "
             "every cache-file write, restart, hit/miss and hit bytes per URL) on the explored scenarios. Not modelled: SMP / "
             "asynchronous disk I/O, concurrent readers, slot exhaustion (purgeOne), header updates, writes torn inside one "
-            "header field, object bodies that imitate swap metadata. Trusted: Coq kernel, extraction, gen/gen_diskcrash.cc, "
+            "header field, writes torn inside the stored metadata/header prefix of a recycled slot (old and new prefix bytes "
+            "coincide; those scenarios are judged by the oracle only), object bodies that imitate swap metadata. Trusted: Coq kernel, extraction, gen/gen_diskcrash.cc, "
             "vlib/lab.py stubs, lab/shim_crash.c.",
     "technique": "Coq proof (inductive invariants over the rebuild's slot scan and entry validation, quantified over all "
                  "write-once workloads and all crash prefixes; exhaustive vm_compute sweep for the bounded theorem; vm_compute "
@@ -615,7 +616,13 @@ def run(res, tier):
 
 def model_blind(s):
     """ufs/aufs scenarios are outside the model: only the oracle judges them"""
-    return s.get("dir", "rock") != "rock"
+    if s.get("dir", "rock") != "rock":
+        return True
+    # a write torn INSIDE the stored prefix (swap metadata + reply header) of a slot that held an earlier version of
+    # the same URL: old and new metadata bytes largely coincide (magic, length, key, URL), which the model's symbolic
+    # bytes (every version's bytes distinct) cannot express -- e.g. cut after 41 bytes squid still serves the complete
+    # OLD version. Judged by the oracle only.
+    return bool(s.get("at")) and 40 < (s.get("partial") or 0) < 440
 
 
 def kind_fn(s, o):
